@@ -274,6 +274,12 @@ def check(ctx):
     ps = [c for c in calls(ob_, "_optimize_blockwise")]
     ok = len(ps) >= 2 and all(kwarg(c, "keys") is not None and eqv(kwarg(c, "keys"), "keys") for c in ps)
     ctx.ob("ARG.blockwise-passes.keys", ob_, "every _optimize_blockwise(...) call of the fixed-point loop passes keys=keys", ok, "" if ok else "a later pass fuses a requested intermediate layer into its consumer: its keys vanish from the optimized graph")
+    # ---------------- fuse_roots: the fused layer is stored WITH the (equal) annotations of the layers it replaces
+    fr = (model if "model" in dir() else ctx.model).module("dask/blockwise.py").func("fuse_roots")
+    st_ = [a for a in ast.walk(fr) if isinstance(a, ast.Assign) and eqv(a.targets[0], "layers[name]")]
+    ok = len(st_) == 1 and isinstance(st_[0].value, ast.Call) and call_name(st_[0].value) == "MaterializedLayer" and kwarg(st_[0].value, "annotations") is not None and eqv(kwarg(st_[0].value, "annotations"), "layer.annotations")
+    guard = any("layer.annotations == graph.layers[dep].annotations" in unparse(n.test) for n in ast.walk(fr) if isinstance(n, ast.If))
+    ctx.ob("ANN.fuse-roots.kept", fr, "fuse_roots fuses only equally annotated layers and stores MaterializedLayer(new, annotations=layer.annotations)", ok and guard, "" if ok and guard else "the fused tasks are stored as a bare dict: HighLevelGraph wraps it without annotations, i.e. every constraint (retries, workers, resources) is loosened to nothing")
 
 
 VARIANTS = [
